@@ -465,6 +465,13 @@ bool HllArray<A>::isCompact() const {
 
 template<typename A>
 bool HllArray<A>::isEmpty() const {
+  if (rebuild_kxq_curmin_) {
+    // curMin_ and numAtCurMin_ are stale until check_rebuild_kxq_cur_min() runs: look at the registers
+    for (const uint8_t byte: hllByteArr_) {
+      if (byte != 0) return false;
+    }
+    return true;
+  }
   const uint32_t configK = 1 << this->lgConfigK_;
   return (curMin_ == 0) && (numAtCurMin_ == configK);
 }
